@@ -38,10 +38,22 @@ func rc4Alias(u uint32) uint32 {
 	return u
 }
 
+// inputsTouched counts calls that modified a byte slice they were only given to read (ciphertext, key, data, checksum)
+var inputsTouched []string
+
+func untouched(what string, before, after []byte) {
+	if string(before) != string(after) && len(inputsTouched) < 50 {
+		inputsTouched = append(inputsTouched, what)
+	}
+}
+
 func obsDecrypt(ct []byte, key types.EncryptionKey, usage uint32) (jv.V, []byte) {
 	var pt []byte
 	var err error
+	ct0, k0 := append([]byte{}, ct...), append([]byte{}, key.KeyValue...)
 	p, _ := guard(func() { pt, err = crypto.DecryptMessage(ct, key, usage) })
+	untouched(fmt.Sprintf("DecryptMessage(etype %d): ciphertext", key.KeyType), ct0, ct)
+	untouched(fmt.Sprintf("DecryptMessage(etype %d): key", key.KeyType), k0, key.KeyValue)
 	if p {
 		return jv.Panic(), nil
 	}
@@ -294,7 +306,11 @@ func c07(c *Ctx) {
 			c.Case("checksum", jv.L(jv.I(int64(et)), jv.B(key.KeyValue), jv.I(int64(usage)), jv.B(data)), jv.Ok(jv.B(sum)))
 			ver := func(kind string, k []byte, d, s []byte, u uint32, want bool, sample bool) {
 				var ok bool
+				k0, d0, s0 := append([]byte{}, k...), append([]byte{}, d...), append([]byte{}, s...)
 				p, _ := guard(func() { ok = e.VerifyChecksum(k, d, s, u) })
+				untouched(fmt.Sprintf("VerifyChecksum(etype %d): key", et), k0, k)
+				untouched(fmt.Sprintf("VerifyChecksum(etype %d): data", et), d0, d)
+				untouched(fmt.Sprintf("VerifyChecksum(etype %d): checksum", et), s0, s)
 				c.Check(!p && ok == want, "VerifyChecksum is true exactly for the RFC value", "verify:"+kind, fmt.Sprintf("got %v want %v", ok, want), map[string]interface{}{"etype": et, "key": hex.EncodeToString(k), "usage": u, "data": hex.EncodeToString(d), "chk": hex.EncodeToString(s)})
 				if sample || ok != want {
 					o := jv.Ok(jv.Bool(ok))
@@ -340,4 +356,16 @@ func c07(c *Ctx) {
 	}
 }
 
-func init() { props["C05"] = c05; props["C06"] = c06; props["C07"] = c07 }
+func withUntouched(f func(*Ctx)) func(*Ctx) {
+	return func(c *Ctx) {
+		inputsTouched = nil
+		f(c)
+		c.Check(len(inputsTouched) == 0, "decryption and verification leave the byte slices they are given untouched", "input-modified", fmt.Sprint(inputsTouched), nil)
+	}
+}
+
+func init() {
+	props["C05"] = withUntouched(c05)
+	props["C06"] = withUntouched(c06)
+	props["C07"] = withUntouched(c07)
+}
